@@ -443,6 +443,50 @@ def option_chain(node, var):
         raise Bad("line %d: option chain without a final `else: raise`" % node.lineno)
 
 
+def step_dispatches(trees, status):
+    """option dispatches of the primitive steps: a top-level `if <param> == "a": .. elif <param> == "b": .. else: raise E(..)`
+    in a module-level function of PEPit/primitive_steps/*.py.  For each: accepted literals, E, and whether the dispatch is
+    the first statement of the function that can return (no `return` anywhere before it).  Any other `raise ValueError`
+    in those files is outside the grammar (error item)."""
+    out = []
+    for rel, tree in trees.items():
+        if not rel.startswith("primitive_steps" + os.sep) or rel.endswith("__init__.py"):
+            continue
+        for fn in tree.body:
+            if not isinstance(fn, ast.FunctionDef):
+                continue
+            params = [a.arg for a in fn.args.args + fn.args.kwonlyargs]
+            body = body_of(fn)
+            covered = set()
+            for i, st in enumerate(body):
+                if not isinstance(st, ast.If):
+                    continue
+                var = st.test.left.id if isinstance(st.test, ast.Compare) and isinstance(st.test.left, ast.Name) else None
+                if var not in params or _eq_test(st.test, var) is None:
+                    continue
+                item = "step:%s:%s" % (fn.name, var)
+                try:
+                    acc, pre, exn = option_chain(st, var)
+                    if pre:
+                        raise Bad("prefix test in a step option")
+                    early = [n.lineno for b in body[:i] for n in ast.walk(b) if isinstance(n, ast.Return)]
+                    out.append((rel.replace(os.sep, "/"), "%s:%s" % (fn.name, var), acc, exn, not early))
+                    for n in ast.walk(st):
+                        if isinstance(n, ast.Raise):
+                            covered.add(n)
+                    status[item] = True
+                except Bad as e:
+                    status[item] = "%s: %s: %s" % (rel, fn.name, e)
+            for n in ast.walk(fn):
+                if isinstance(n, ast.Raise) and n not in covered and n.exc is not None:
+                    name = n.exc.func.id if isinstance(n.exc, ast.Call) and isinstance(n.exc.func, ast.Name) else \
+                        (n.exc.id if isinstance(n.exc, ast.Name) else "?")
+                    if name == "ValueError":
+                        status["step:%s:raise@%d" % (fn.name, n.lineno)] = \
+                            "%s:%d: %s: `raise ValueError` outside a top-level option dispatch" % (rel, n.lineno, fn.name)
+    return out
+
+
 def translate():
     status = {}
     L = ["(** GENERATED by translator/tr_handlers.py -- exception contract of eval / eval_dual and of solve(). *)",
@@ -513,6 +557,15 @@ def translate():
     L.append("(** every call site of such a function: (callee, file:caller) *)")
     L.append("Definition writer_callers : list (string * string) := [%s]." % "; ".join(
         "(%s, %s)" % (cstr(a), cstr(b)) for a, b in callers))
+    L.append("")
+    # ---- option dispatches of the primitive steps
+    disp = step_dispatches(trees, status)
+    L.append("(** option dispatches of the primitive steps: (file, function:parameter, accepted literals / exception of the else")
+    L.append("    branch / [checked_before_solve] here means: no `return` precedes the dispatch in the function) *)")
+    L.append("Definition step_option_dispatches : list (string * string * option_check) := [%s]." % ";\n  ".join(
+        "(%s, %s, {| accepted := [%s] ; prefixes := [] ; rejected_with := %s ; checked_before_solve := %s |})" % (
+            cstr(f), cstr(n), "; ".join(cstr(a) for a in acc), exn_term(e), "true" if first else "false")
+        for f, n, acc, e, first in disp))
     L.append("")
     # ---- solve plan, options
     pep = trees.get("pep.py")
